@@ -76,3 +76,28 @@ func TestSFReplayRaceZero(t *testing.T) {
 		m.lock.Unlock()
 	}
 }
+
+// TestSFReplayRaceGeoip  broker.(*Metrics).LoadGeoipDatabases/guard.Metrics.geoipdb#1
+// (the SIGHUP goroutine reloads the databases while poll handlers read m.geoipdb under Metrics.lock)
+func TestSFReplayRaceGeoip(t *testing.T) {
+	m, err := NewMetrics(log.New(ioutil.Discard, "", 0))
+	if err != nil {
+		t.Fatal(err)
+	}
+	if err := m.LoadGeoipDatabases("test_geoip", "test_geoip6"); err != nil {
+		t.Fatal(err)
+	}
+	done := make(chan struct{})
+	go func() {
+		for k := 0; k < 20; k++ {
+			m.LoadGeoipDatabases("test_geoip", "test_geoip6") // what the SIGHUP handler does
+		}
+		close(done)
+	}()
+	for k := 0; k < 2000; k++ {
+		m.lock.Lock()
+		m.UpdateCountryStats(fmt.Sprintf("1.2.%d.%d", k/250, k%250), "standalone", "unknown") // what ProxyPolls does
+		m.lock.Unlock()
+	}
+	<-done
+}
